@@ -209,7 +209,13 @@ class IntervalTier(textgrid_tier.TextgridTier):
 
     def deleteEntry(self, entry: Interval) -> None:
         """Removes an entry from the entries"""
-        self._entries.pop(self._entries.index(entry))
+        # Entry equality tolerates rounding noise; if several entries are equal
+        # in that sense, remove the one that matches the given one exactly
+        exactMatches = [
+            i for i, other in enumerate(self._entries) if tuple(other) == tuple(entry)
+        ]
+        index = exactMatches[0] if exactMatches else self._entries.index(entry)
+        self._entries.pop(index)
 
     def difference(self, tier: "IntervalTier") -> "IntervalTier":
         """Takes the set difference of this tier and the given one
